@@ -127,12 +127,18 @@ class C09(Check):
             self.holds("P2", PAR, "parallelise", "sequential-order", seq[0], "list(map(worker, inputs)): input order")
         else:
             self.violated("P2", PAR, "parallelise", "sequential-order", bad[0] if bad else fn, "sequential results are not produced in input order")
-        pm = [n for n in ast.walk(fn) if isinstance(n, ast.Call) and norm(n.func) == "pool.map"]
-        app = [n for n in ast.walk(fn) if isinstance(n, ast.Call) and norm(n.func) == "results.append"]
-        if pm and norm(pm[0].args[1]) == "inputs" and app and norm(app[0].args[0]) == "(key, value)" and not bad:
-            self.holds("P2", PAR, "parallelise", "parallel-order", pm[0], "pool.map(worker, inputs) consumed with next(it) and appended in arrival (= input) order")
+        pm = [n for n in ast.walk(fn) if isinstance(n, ast.Call) and dotted(n.func).endswith(".map") and len(n.args) >= 2 and norm(n.func) != "map"]
+        cons = self.consumer(par, fn)
+        if cons is None:
+            self.undecided_ob("P2", PAR, "parallelise", "parallel-order", fn, "parallel consumer loop not recognised")
         else:
-            self.violated("P2", PAR, "parallelise", "parallel-order", fn, "parallel results are not appended in input order")
+            owner, loop, tr, nxt, apps, lst = cons
+            bad2 = [n for n in ast.walk(owner) if isinstance(n, ast.Call) and dotted(n.func).split(".")[-1] in ("sorted", "set", "as_completed", "imap_unordered", "reversed", "shuffle", "insert")]
+            same = bool(apps) and nxt is not None and self._is_next_value(apps[0].args[0], nxt)
+            if pm and norm(pm[0].args[1]) == "inputs" and same and not bad and not bad2:
+                self.holds("P2", PAR, "parallelise", "parallel-order", pm[0], "pool.map(worker, inputs) consumed with next(it) and appended in arrival (= input) order")
+            else:
+                self.violated("P2", PAR, "parallelise", "parallel-order", fn, "parallel results are not appended in input order")
         rets = [r for r in walk_no_nested(fn) if isinstance(r, ast.Return) and r.value is not None]
         rebound = [n for n in walk_no_nested(fn) if isinstance(n, (ast.Assign, ast.AugAssign)) and "inputs" in [norm(t) for t in (n.targets if isinstance(n, ast.Assign) else [n.target])]]
         if rets and all(norm(r.value) == "results" for r in rets) and not rebound:
@@ -162,25 +168,59 @@ class C09(Check):
             else:
                 self.info("P2", rel, name, "container-in-row-order", rets[-1], "result assembly not in a recognised form")
 
+    @staticmethod
+    def _is_next_value(arg: ast.AST, nxt: ast.AST) -> bool:
+        """arg (what is appended) is exactly the value bound from next(it) (a name, or the same tuple of names)."""
+        def flat(t):
+            return [norm(e) for e in t.elts] if isinstance(t, ast.Tuple) else [norm(t)]
+        return flat(arg) == flat(nxt)
+
+    def consumer(self, par, fn):
+        """Locate the loop that consumes the pool.map iterator: in fn itself or in a same-module helper fn hands the iterator to."""
+        owners = [fn]
+        for c in ast.walk(fn):
+            if isinstance(c, ast.Call) and isinstance(c.func, ast.Name) and c.func.id in par.functions and c.func.id != fn.name \
+                    and any("result" in norm(a) or norm(a) in ("future", "it") for a in c.args):
+                owners.append(par.functions[c.func.id])
+        for owner in owners:
+            for loop in [n for n in ast.walk(owner) if isinstance(n, ast.While)]:
+                tr = [n for n in loop.body if isinstance(n, ast.Try)]
+                if not tr:
+                    continue
+                nxt = None
+                for a in ast.walk(ast.Module(body=tr[0].body, type_ignores=[])):
+                    if isinstance(a, ast.Assign) and isinstance(a.value, ast.Call) and norm(a.value.func) == "next":
+                        nxt = a.targets[0]
+                if nxt is None:
+                    continue
+                region = ast.Module(body=tr[0].body + tr[0].orelse, type_ignores=[])
+                apps = [n for n in ast.walk(region) if isinstance(n, ast.Call) and isinstance(n.func, ast.Attribute) and n.func.attr == "append" and len(n.args) == 1]
+                lst = norm(apps[0].func.value) if apps else None
+                if owner is not fn:
+                    rets = [r for r in walk_no_nested(owner) if isinstance(r, ast.Return) and r.value is not None]
+                    if not (rets and all(norm(r.value) == lst for r in rets)):
+                        continue
+                elif lst not in (None, "results"):
+                    continue
+                return owner, loop, tr[0], nxt, apps, lst
+        return None
+
     def p3(self, par) -> None:
         for name in ("parallelise", "parallelise_keyless"):
             fn = par.func(name)
-            loops = [n for n in ast.walk(fn) if isinstance(n, ast.While)]
-            if not loops:
+            cons = self.consumer(par, fn)
+            if cons is None:
                 self.undecided_ob("P3", PAR, name, "one-result-per-input", fn, "parallel consumer loop not recognised")
                 continue
-            tr = [n for n in loops[0].body if isinstance(n, ast.Try)]
-            if not tr:
-                self.undecided_ob("P3", PAR, name, "one-result-per-input", loops[0], "consumer loop has no try")
-                continue
-            apps = [n for n in ast.walk(ast.Module(body=tr[0].body, type_ignores=[])) if isinstance(n, ast.Call) and norm(n.func) == "results.append"]
-            stop = [h for h in tr[0].handlers if norm(h.type) == "StopIteration" and any(isinstance(x, ast.Break) for x in h.body)]
-            drops = [h for h in tr[0].handlers if norm(h.type) != "StopIteration" and not any(isinstance(x, (ast.Raise, ast.Break)) for x in ast.walk(h))
-                     and not any(isinstance(x, ast.Call) and norm(x.func) == "results.append" for x in ast.walk(h))]
-            if len(apps) == 1 and stop:
+            owner, loop, tr, nxt, apps, lst = cons
+            stop = [h for h in tr.handlers if norm(h.type) == "StopIteration" and any(isinstance(x, ast.Break) for x in h.body)]
+            drops = [h for h in tr.handlers if norm(h.type) != "StopIteration" and not any(isinstance(x, (ast.Raise, ast.Break)) for x in ast.walk(h))
+                     and not any(isinstance(x, ast.Call) and isinstance(x.func, ast.Attribute) and x.func.attr == "append" for x in ast.walk(h))]
+            guarded = [a for a in apps if any(isinstance(g, (ast.If, ast.For, ast.While)) and any(x is a for x in ast.walk(g)) for st in tr.body + tr.orelse for g in ast.walk(st))]
+            if len(apps) == 1 and stop and not guarded and self._is_next_value(apps[0].args[0], nxt):
                 self.holds("P3", PAR, name, "one-result-per-input", apps[0], "each next(it) appends exactly one result; the loop ends on StopIteration only")
             else:
-                self.violated("P3", PAR, name, "one-result-per-input", loops[0], "the consumer loop does not append exactly one result per input")
+                self.violated("P3", PAR, name, "one-result-per-input", loop, "the consumer loop does not append exactly one result per input")
             for h in drops:
                 self.info("P3", PAR, name, f"drop-on-{norm(h.type)}", h,
                           f"`except {norm(h.type)}` continues without appending: a row would be dropped and later rows shift - reachable only with a timeout, which no scan entry passes (checked under P1b)")
